@@ -217,8 +217,50 @@ def h_get_all_rules(ctx):
     ctx.cover('get_all_rules.path')
 
 
+def h_get_transforms(ctx):
+    """get_transforms: the transforms applied before matching are those of the rules file as it is NOW (a cold load of that path and mode), whatever
+    engine an earlier get_all_rules left in the module cache; no rules file / a file that does not load -> no transforms"""
+    sp = Spec()
+    I = Interp(ctx, sp)
+    sp.exc_table.update({'ExpressionError': 'Exception', 'MerchantParseError': 'Exception'})
+    cached_path = ctx.fresh('previously_cached_path', StrS)
+    old_engine = Obj(ctx.fresh('previously_cached_engine', ObjS), 'MerchantEngine')
+    had = ctx.choose(2, 'cache_was')
+    sp.globals['_cached_engine'] = old_engine if had else None
+    sp.globals['_cached_engine_path'] = cached_path if had else None
+    sp.field_sorts[('MerchantEngine', 'transforms')] = ObjS
+
+    def m_load(I_, args, kwargs, node):
+        path = to_z3(args[0], StrS)
+        mode = to_z3(kwargs.get('match_mode', args[1] if len(args) > 1 else 'first_match'), StrS)
+        if I_.ctx.branch(LoadErr(path, mode), 'load.raises'):
+            which = I_.ctx.choose(3, 'load.exc')
+            raise PyRaise(['MerchantParseError', 'OSError', 'UnicodeDecodeError'][which], (), 'load_merchants_file')
+        return Obj(Load(path, mode), 'MerchantEngine')
+    sp.models[ME + 'load_merchants_file'] = Func(m_load)
+    sp.models['load_merchants_file'] = Func(m_load)
+    sp.models['pathlib.Path'] = Func(lambda I_, a, k, n: a[0])
+    sp.models['Path'] = Func(lambda I_, a, k, n: a[0])
+    kind = ctx.choose(2, 'rules_path')
+    path = None if kind == 0 else ctx.fresh('rules_path', StrS)
+    mode = ctx.fresh('match_mode', StrS)
+    r = I.call_function(find_function(MU + 'get_transforms'), [path], {'match_mode': mode})
+    T = UF('MerchantEngine.transforms', ObjS, ObjS)
+    if path is None:
+        ctx.check('C07.transforms.none_without_rules_file', r == [], 'property')
+        return
+    cold = z3.And(z3.Length(path) > 0, z3.SuffixOf(z3.StringVal('.rules'), path), z3.Not(LoadErr(path, mode)))
+    if r == []:
+        ctx.check('C07.transforms.empty_only_if_no_loadable_rules_file', z3.Not(cold), 'property', witness={'path': path})
+    else:
+        ctx.check('C07.transforms.are_those_of_a_cold_load_of_this_file', z3.And(cold, z3.BoolVal(isinstance(r, Obj)), to_z3(r) == T(Load(path, mode)) if isinstance(r, Obj) else z3.BoolVal(False)),
+                  'property', witness={'path': path, 'cached_path': cached_path})
+    ctx.cover('get_transforms.returns')
+
+
 def harnesses(tier):
     return [
+        Harness('get_transforms', h_get_transforms, [MU + 'get_transforms']),
         Harness('parse_expression', h_parse_expression, [EP + 'parse_expression']),
         Harness('_fn_regex', h_fn_regex, [EP + 'TransactionContext._fn_regex']),
         Harness('get_all_rules', h_get_all_rules, [MU + 'get_all_rules']),
